@@ -169,6 +169,51 @@ func cfgCase(id int, ops []string) {
 	hx.Printf("sobs %d maps=%s\n", id, strings.Join(outs, ","))
 }
 
+// reuseCase: ONE long-lived projection and ONE long-lived filter on a sub-name key, applied to ONE Result
+// whose Name buffer is overwritten in place with names of the same length (the way a streaming reader
+// reuses its Result): every step must extract the value of the name at THAT step.
+func reuseCase(id int, names [][]byte, key string) {
+	var enc []string
+	for _, n := range names {
+		enc = append(enc, hx.Hex(n))
+	}
+	hx.Printf("case %d kind=reuse key=%s names=%s tag=reuse\n", id, hx.HexS(key), strings.Join(enc, ","))
+	var pp benchproc.ProjectionParser
+	p, err := pp.Parse(strconv.Quote(key), nil)
+	if err != nil {
+		hx.Printf("obs %d rv=!parse\nsobs %d rv=!parse fm=-\n", id, id)
+		return
+	}
+	fld := p.Fields()[0]
+	buf := make([]byte, len(names[0]))
+	res := &benchfmt.Result{Name: benchfmt.Name(buf)}
+	var vals []string
+	var flt *benchproc.Filter
+	fm := ""
+	for i, n := range names {
+		copy(buf, n)
+		v := p.Project(res).Get(fld)
+		vals = append(vals, hx.HexS(v))
+		if i == 0 {
+			flt, err = benchproc.NewFilter(strconv.Quote(key) + ":" + strconv.Quote(v))
+			if err != nil {
+				fm = "!filter"
+			}
+		}
+		if flt != nil {
+			ok, _ := flt.Apply(res)
+			if ok {
+				fm += "1"
+			} else {
+				fm += "0"
+			}
+		}
+	}
+	line := "rv=" + strings.Join(vals, ",")
+	hx.Printf("obs %d %s\n", id, line)
+	hx.Printf("sobs %d %s fm=%s\n", id, line, fm)
+}
+
 var cfgVals = []string{"", "x", "xy", "abc", "abcdef", "0123456789abcdef", "v w", "é"}
 
 func main() {
@@ -207,6 +252,37 @@ func main() {
 		}
 	}
 	rec(nil)
+	// long-lived extractors over a Result reused in place
+	rr := hx.NewRand(77)
+	segs := []string{"/n=10", "/n=99", "/alg=q", "/alg=h", "/a=1", "/a=2", "/b=77", "/x", "/gomaxprocs=4", "/n=1", "/n=", "/nn=1"}
+	for i := 0; i < hx.N(1500, 30000); i++ {
+		base := hx.Pick(rr, []string{"Sort", "S", "", "Sort-8"})
+		pick := func() []byte {
+			n := []byte(base)
+			for j := 1 + rr.Intn(3); j > 0; j-- {
+				n = append(n, hx.Pick(rr, segs)...)
+			}
+			if rr.Chance(1, 3) {
+				n = append(n, hx.Pick(rr, []string{"-8", "-16", "-1"})...)
+			}
+			return n
+		}
+		first := pick()
+		names := [][]byte{first}
+		for tries := 0; len(names) < 2+rr.Intn(4) && tries < 400; tries++ {
+			c := pick()
+			if len(c) == len(first) {
+				names = append(names, c)
+			}
+		}
+		if len(names) < 2 {
+			continue
+		}
+		reuseCase(id, names, hx.Pick(rr, []string{"/n", "/alg", "/a", "/gomaxprocs", "/b", "/x"}))
+		id++
+	}
+	reuseCase(id, [][]byte{[]byte("Sort/n=10/alg=q"), []byte("Sort/alg=q/n=10"), []byte("Sort/n=1024-128"), []byte("Sort/alg=h/b=77")}, "/n")
+	id++
 	// configuration histories through the API
 	rc := hx.NewRand(55)
 	for i := 0; i < hx.N(4000, 60000); i++ {
